@@ -877,3 +877,107 @@ func ruleLexCommentNewline(c *Ctx, r *R) {
 	r.check(ok, "scan:implicit-semicolon", c.Pos(scan.Pos()), "scan raises implicitSemicolon when a comment scanner reports a line terminator",
 		"scan never stores implicitSemicolon = true under a test of what the comment scanners report: a line terminator inside a multi-line comment is invisible to automatic semicolon insertion (ES5 7.4)")
 }
+
+// ---- ASI-dotmember -------------------------------------------------------------------------------------------------------
+
+func init() {
+	register(&Rule{ID: "ASI-dotmember", Props: []string{"C03"}, Min: 1,
+		Doc: "P: the scanner arms automatic semicolon insertion (insertSemicolon) per token kind and leaves it unarmed for reserved words; after `.` a reserved word is an IdentifierName (ES5 11.2.1, 7.6) and ends an expression like any other name. In every parser function that builds an ast.DotExpression, the next() call that consumes the property name is preceded on its path by a store insertSemicolon = true; otherwise `var f = o.delete<LF>f` is a syntax error",
+		Run: ruleAsiDotMember})
+}
+
+func ruleAsiDotMember(c *Ctx, r *R) {
+	n := 0
+	for _, fn := range c.AllSrcFuncs("parser") {
+		var alloc *ssa.Alloc
+		for _, b := range fn.Blocks {
+			for _, ins := range b.Instrs {
+				if al, ok := ins.(*ssa.Alloc); ok && typeIs(al.Type(), ottoPath+"/ast", "DotExpression") {
+					alloc = al
+				}
+			}
+		}
+		if alloc == nil {
+			continue
+		}
+		n++
+		// the last next() call that dominates the allocation
+		var consume *ssa.Call
+		for _, b := range fn.Blocks {
+			for _, ins := range b.Instrs {
+				call, ok := ins.(*ssa.Call)
+				if !ok || call.Call.StaticCallee() == nil || call.Call.StaticCallee().Name() != "next" {
+					continue
+				}
+				if b == alloc.Block() || b.Dominates(alloc.Block()) {
+					consume = call
+				}
+			}
+		}
+		key := ssaFuncName(fn)
+		if consume == nil {
+			r.undecided("unresolved:"+key, c.Pos(fn.Pos()), "UNRESOLVED: no next() call dominating the DotExpression in "+key)
+			continue
+		}
+		armed := !reachableWithout(fn, consume, func(i ssa.Instruction) bool {
+			st, ok := i.(*ssa.Store)
+			if !ok || !isFieldAddr(st.Addr, "parser", "insertSemicolon") {
+				return false
+			}
+			k, ok := st.Val.(*ssa.Const)
+			return ok && k.Value != nil && k.Value.ExactString() == "true"
+		})
+		r.check(armed, key, c.Pos(instrPos(consume)), "insertSemicolon is set before the property name is consumed",
+			key+" consumes the property name of a dot member without arming automatic semicolon insertion: when the name is a reserved word the scanner has not armed it either, so `var f = o.delete<LF>f` fails with `Unexpected identifier`")
+	}
+	if n == 0 {
+		r.undecided("unresolved:dot-expression", "-", "UNRESOLVED: no parser function builds an ast.DotExpression")
+	}
+}
+
+// ---- LEX-regexp-flags ----------------------------------------------------------------------------------------------------
+
+func init() {
+	register(&Rule{ID: "LEX-regexp-flags", Props: []string{"C03", "C04"}, Min: 1,
+		Doc: "G: ES5 7.8.5 - RegularExpressionFlags are the IdentifierPart characters that follow the closing `/` immediately; they are part of the literal's token. In the parser function that builds an ast.RegExpLiteral the Flags field must not be the literal of a token obtained from the general tokeniser (a load of parser.literal after a call of next()), which skips white space, comments and line terminators first: `var re = /a/<LF>g` would take the identifier of the next line as flags",
+		Run: ruleLexRegexpFlags})
+}
+
+func ruleLexRegexpFlags(c *Ctx, r *R) {
+	n := 0
+	for _, fn := range c.AllSrcFuncs("parser") {
+		for _, b := range fn.Blocks {
+			for _, ins := range b.Instrs {
+				st, ok := ins.(*ssa.Store)
+				if !ok || !isFieldAddr(st.Addr, "RegExpLiteral", "Flags") {
+					continue
+				}
+				n++
+				fromToken := false
+				var walk func(v ssa.Value, d int)
+				walk = func(v ssa.Value, d int) {
+					if d > 6 {
+						return
+					}
+					switch x := v.(type) {
+					case *ssa.Phi:
+						for _, e := range x.Edges {
+							walk(e, d+1)
+						}
+					case *ssa.UnOp:
+						if x.Op == token.MUL && isFieldAddr(x.X, "parser", "literal") {
+							fromToken = true
+						}
+					}
+				}
+				walk(st.Val, 0)
+				key := ssaFuncName(fn)
+				r.check(!fromToken, key, c.Pos(instrPos(st)), "the flags are not taken from a token of the general tokeniser",
+					key+" takes the flags of a regular-expression literal from the next token of the general tokeniser (p.literal after next()): white space, comments and line terminators between the closing `/` and an identifier are skipped, so `var g = 0<LF>var re = /a/<LF>g` gives re.global === true and `re = /ab+c/<LF>i = 1` is a syntax error (ES5 7.8.5: the flags follow the `/` immediately)")
+			}
+		}
+	}
+	if n == 0 {
+		r.undecided("unresolved:flags-store", "-", "UNRESOLVED: no store to ast.RegExpLiteral.Flags in package parser")
+	}
+}
